@@ -413,8 +413,37 @@ func appendSites(fn *ssa.Function, typeSuffix string) []appendSite {
 					}
 				}
 			}
-			out = append(out, site)
+			out = append(out, splitPhiSite(site, 0)...)
 		}
+	}
+	return out
+}
+
+// splitPhiSite: when the appended element is a φ (the element was chosen on several branches and
+// appended once — the shape left by folding a helper that returns the element), each incoming edge
+// is a site of its own: its element is the edge's value and its place is the end of the edge's
+// predecessor block, so path rules judge each branch by the checks that branch passed.
+func splitPhiSite(site appendSite, depth int) []appendSite {
+	var ph *ssa.Phi
+	if site.Elem != nil {
+		ph, _ = strip(site.Elem).(*ssa.Phi)
+	}
+	if ph == nil || depth > 4 {
+		return []appendSite{site}
+	}
+	var out []appendSite
+	for i, e := range ph.Edges {
+		pred := ph.Block().Preds[i]
+		s := site
+		s.Elem = e
+		s.Alloc = nil
+		s.At = pred.Instrs[len(pred.Instrs)-1]
+		if u, ok := strip(e).(*ssa.UnOp); ok && u.Op == token.MUL {
+			if a, ok := u.X.(*ssa.Alloc); ok {
+				s.Alloc = a
+			}
+		}
+		out = append(out, splitPhiSite(s, depth+1)...)
 	}
 	return out
 }
@@ -583,4 +612,111 @@ func minMaxCall(v ssa.Value) (args []ssa.Value, isMin bool, ok bool) {
 		return nil, false, false
 	}
 	return c.Call.Args, bi.Name() == "min", true
+}
+
+// blocksAfter: the blocks control can be in after leaving block b (b itself only through a cycle).
+func blocksAfter(b *ssa.BasicBlock) map[*ssa.BasicBlock]bool {
+	seen := map[*ssa.BasicBlock]bool{}
+	var dfs func(x *ssa.BasicBlock)
+	dfs = func(x *ssa.BasicBlock) {
+		for _, s := range x.Succs {
+			if !seen[s] {
+				seen[s] = true
+				dfs(s)
+			}
+		}
+	}
+	dfs(b)
+	return seen
+}
+
+// originsAfter is origins restricted to the paths that start at instruction `from`: a φ-edge counts
+// only when its predecessor block can be reached from there (a helper folded into the function
+// merges its returns in one φ, and the edges of the returns before `from` are not on these paths).
+func originsAfter(v ssa.Value, from ssa.Instruction) []ssa.Value {
+	fb := from.Block()
+	after := blocksAfter(fb)
+	seen := map[ssa.Value]bool{}
+	var out []ssa.Value
+	var walk func(v ssa.Value)
+	walk = func(v ssa.Value) {
+		v = strip(v)
+		if seen[v] {
+			return
+		}
+		seen[v] = true
+		if ph, ok := v.(*ssa.Phi); ok {
+			for i, e := range ph.Edges {
+				p := ph.Block().Preds[i]
+				if p == fb || after[p] {
+					walk(e)
+				}
+			}
+			return
+		}
+		for _, o := range origins(v) {
+			if o == v {
+				out = append(out, o)
+			} else if _, isPhi := o.(*ssa.Phi); isPhi {
+				walk(o)
+			} else {
+				out = append(out, o)
+			}
+		}
+	}
+	walk(v)
+	return out
+}
+
+// valueClassAt: the values c in 0..256 of the integer v (an instruction's result, typically the
+// current rune or byte of a loop) for which `target` can be reached from v's definition without v
+// being redefined, when every branch that compares v with a constant is decided for v == c and
+// every other branch is free. It is the in-line counterpart of predClass.
+func valueClassAt(v ssa.Value, target ssa.Instruction) (acc [257]bool, ok bool) {
+	def, isInstr := strip(v).(ssa.Instruction)
+	if !isInstr || def.Block() == nil {
+		return acc, false
+	}
+	start := locOf(def)
+	start.I++
+	decide := func(cond ssa.Value, truth bool, c int64) (feasible bool) {
+		l := litOf(cond, truth)
+		x, y, op := l.X, l.Y, l.Op
+		if strip(y) == strip(v) {
+			x, y, op = y, x, swapOp(op)
+		}
+		if strip(x) != strip(v) {
+			return true
+		}
+		k, isC := constInt(y)
+		if !isC {
+			return true
+		}
+		switch op {
+		case token.EQL:
+			return c == k
+		case token.NEQ:
+			return c != k
+		case token.LSS:
+			return c < k
+		case token.LEQ:
+			return c <= k
+		case token.GTR:
+			return c > k
+		case token.GEQ:
+			return c >= k
+		}
+		return true
+	}
+	for c := int64(0); c <= 256; c++ {
+		found, _, _ := search(SearchSpec{Start: start,
+			Target:  func(in ssa.Instruction) bool { return in == target },
+			Blocker: func(in ssa.Instruction) bool { return in == def },
+			Removed: func(from *ssa.BasicBlock, si int) bool {
+				ifi, isIf := from.Instrs[len(from.Instrs)-1].(*ssa.If)
+				return isIf && !decide(ifi.Cond, si == 0, c)
+			}})
+		acc[c] = found
+	}
+	return acc, true
 }
